@@ -25,6 +25,15 @@ def ReadPack : List String :=
 def ToBytesPack : List String :=
   ["out := io.NewDataOutputX()", "WritePack(out, p)", "return out.ToByteArray()"]
 
+def LogSinkPack_GetContentBytes : List String :=
+  ["out := io.NewDataOutputX()", "out.WriteByte(1)", "out.WriteText(this.Content)", "out.WriteDecimal(this.Line)", "return out.ToByteArray()"]
+
+def LogSinkPack_SetContentBytes : List String :=
+  ["defer", "if d == nil || len(d) < 1 {", "return", "}", "in := io.NewDataInputX(d)", "ver := in.ReadByte()", "if ver == 1 {", "this.Content = in.ReadText()", "this.Line = in.ReadDecimal()", "}"]
+
+def ToBytesPackECB : List String :=
+  ["out := io.NewDataOutputX()", "WritePack(out, p)", "remainder := out.Size() % fmtLen", "if remainder != 0 {", "b := make([]byte, fmtLen-remainder)", "out.Write(b, 0, len(b))", "}", "return out.ToByteArray()"]
+
 def ToPack : List String :=
   ["in := io.NewDataInputX(b)", "return ReadPack(in)"]
 
